@@ -10,7 +10,7 @@ func init() {
 	register("C02", checkC02)
 }
 
-var c02Opts = synGenOpts{MaxNT: 4, MaxT: 4, MaxAlts: 3, MaxBody: 3, PEmpty: 0.15, PLit: 0.3, PDup: 0.04, POptRun: 0.35}
+var c02Opts = synGenOpts{MaxNT: 4, MaxT: 4, MaxAlts: 3, MaxBody: 3, PEmpty: 0.15, PLit: 0.3, PDup: 0.04, POptRun: 0.35, PSplit: 0.15}
 
 // runMCLRParse model-checks the parse driver over the canonical tables of small grammars
 // against the LR-independent language oracle.
